@@ -97,6 +97,14 @@ impl std::hash::Hash for ArithmeticOperand {
     }
 }
 
+/// Write a real literal operand so that it parses back as a real literal with the same value.
+///
+/// `{value}` prints `1.0` as `1` (which parses as an integer literal) and large magnitudes as a long
+/// run of digits; `{value:?}` always keeps a decimal point or an exponent (`1.0`, `1e21`).
+fn write_literal_real(f: &mut impl std::fmt::Write, value: f64) -> crate::quil::ToQuilResult<()> {
+    write!(f, "{value:?}").map_err(Into::into)
+}
+
 impl Quil for ArithmeticOperand {
     fn write(
         &self,
@@ -105,7 +113,7 @@ impl Quil for ArithmeticOperand {
     ) -> crate::quil::ToQuilResult<()> {
         match &self {
             ArithmeticOperand::LiteralInteger(value) => write!(f, "{value}").map_err(Into::into),
-            ArithmeticOperand::LiteralReal(value) => write!(f, "{value}").map_err(Into::into),
+            ArithmeticOperand::LiteralReal(value) => write_literal_real(f, *value),
             ArithmeticOperand::MemoryReference(value) => value.write(f, fall_back_to_debug),
         }
     }
@@ -488,7 +496,7 @@ impl Quil for ComparisonOperand {
     ) -> crate::quil::ToQuilResult<()> {
         match &self {
             ComparisonOperand::LiteralInteger(value) => write!(f, "{value}").map_err(Into::into),
-            ComparisonOperand::LiteralReal(value) => write!(f, "{value}").map_err(Into::into),
+            ComparisonOperand::LiteralReal(value) => write_literal_real(f, *value),
             ComparisonOperand::MemoryReference(value) => value.write(f, fall_back_to_debug),
         }
     }
